@@ -180,7 +180,9 @@ pub fn wellformed_or_two_char(text: &str) -> bool {
                 let mut it = body.chars();
                 it.next();
                 match (it.next(), it.next()) {
-                    (Some(c), None) if ('0'..='~').contains(&c) && c != '[' && c != ']' => {}
+                    // ESC P / X / ^ / _ introduce control strings (DCS, SOS, PM, APC) in ECMA-48: a library may
+                    // legitimately skip their payload, so they are not counted as two-character sequences
+                    (Some(c), None) if ('0'..='~').contains(&c) && !matches!(c, '[' | ']' | 'P' | 'X' | '^' | '_') => {}
                     _ => return false,
                 }
             }
